@@ -212,3 +212,6 @@ func FillAny(ptr any) { panic("vf.FillAny has no native semantics") }
 // DeepEqual: structural equality of *a and *b as a JSON consumer sees it (nil and empty
 // slices alike, pointers by pointee; maps and interfaces are not compared).
 func DeepEqual(a, b any) bool { return reflect.DeepEqual(a, b) }
+
+// GuardMap: every later access to map m is recorded as event "map:<name>" (for HeldDuring).
+func GuardMap(m any, name string) {}
